@@ -12,7 +12,7 @@ from . import core, gen, stores
 from .util import md5hex
 
 PY = sys.executable
-SCENARIOS = ["stage_transfer", "index_save", "store_to_store", "upload_staging", "store_to_store_verify"]
+SCENARIOS = ["stage_transfer", "index_save", "store_to_store", "upload_staging", "store_to_store_verify", "store_to_store_index", "stage_transfer_legacy"]
 
 
 def make_inputs(root, name, tree):
@@ -45,9 +45,11 @@ def child(root, name, crash_at, mode, trace=None):
     return p.returncode, (p.stderr or "")[-600:]
 
 
-def audit(root, after_rerun=False):
+def audit(root, after_rerun=False, algo="md5"):
     """the property's oracle on a store directory + state database"""
     from dvc_data.hashfile.state import State
+
+    from .c13 import digest
 
     odb = os.path.join(root, "odb")
     problems = []
@@ -56,7 +58,7 @@ def audit(root, after_rerun=False):
         p = os.path.join(odb, oid[:2], oid[2:])
         with open(p, "rb") as f:
             b = f.read()
-        ok = md5hex(b) == oid.split(".")[0]
+        ok = (md5hex(b) if (algo == "md5" or oid.endswith(".dir")) else digest(algo, b)) == oid.split(".")[0]
         prot = stat.S_IMODE(os.stat(p).st_mode) == 0o444
         present[oid] = (ok, prot)
         if prot and not ok:
@@ -98,14 +100,15 @@ def one_point(args):
         if rc not in (77, 0):
             out["problems"] = [{"why": "child failed before the crash point", "stderr": err}]
             return out
-        probs, valid, present = audit(root)
+        algo = "md5-dos2unix" if name.endswith("legacy") else "md5"
+        probs, valid, present = audit(root, algo=algo)
         rc2, err2 = child(root, name, -1, "none")
         out["rerun_rc"] = rc2
         if rc2 != 0:
             probs.append({"why": "re-running the interrupted operation failed", "stderr": err2})
             out["problems"] = probs
             return out
-        probs2, valid2, present2 = audit(root, after_rerun=True)
+        probs2, valid2, present2 = audit(root, after_rerun=True, algo=algo)
         out["problems"] = probs + probs2
         out["final"] = valid2
         out["final_all"] = present2
@@ -151,7 +154,7 @@ def run_scenario(ctx, name, tree, pool):
     if rc != 0:
         raise core.Infra("reference run of %s failed: %s" % (name, err))
     events = json.load(open(tf))
-    probs, ref_valid, ref_all = audit(ref, after_rerun=True)
+    probs, ref_valid, ref_all = audit(ref, after_rerun=True, algo="md5-dos2unix" if name.endswith("legacy") else "md5")
     case0 = {"scenario": name, "tree": {"/".join(k): v.hex() for k, v in tree.items()}}
     for p in probs:
         ctx.oracle(False, case0, {**p, "at": "uninterrupted run"})
@@ -166,7 +169,11 @@ def run_scenario(ctx, name, tree, pool):
         case = {**case0, "crash_at_event": r["n"], "mode": r["mode"], "event": events[r["n"]][:2] if r["n"] < total else None}
         ctx.case(case, nontrivial=True)
         for p in r.get("problems", []):
-            ctx.oracle(False, case, p)
+            sig = None
+            if name.endswith("legacy") and p.get("why", "").startswith("a directory object is present but a file it lists is not"):
+                # build() with an algorithm other than md5 stores the directory object in the real store while staging
+                sig = "legacy-algorithm-staging-stores-the-directory-object-before-its-files"
+            ctx.oracle(False, case, p, signature=sig)
         if "final" in r:
             # an object that is legitimately discarded on every attempt (corrupt source under verify) is absent in both
             ctx.oracle(r["final"] == ref_valid and r["final_all"] == ref_all, case,
@@ -203,7 +210,9 @@ def conformance(ctx, name, events, root, tree):
     dirs = [o for o in final_at if o.endswith(".dir")]
     for d in dirs:
         for o, i in final_at.items():
-            if not o.endswith(".dir") and i > final_at[d] and name != "index_save":
+            # (index save writes one directory object per directory level; the legacy-algorithm staging stores the directory
+            # object first - the known finding reported by the crash enumeration of that scenario)
+            if not o.endswith(".dir") and i > final_at[d] and name not in ("index_save", "stage_transfer_legacy"):
                 ok = False
                 why.append("file %s arrives after the directory object %s" % (o, d))
     # data reaches a final name only through a rename of a temp file (apart from the empty reflink probe)
